@@ -192,4 +192,12 @@ PROPS = {
         outside="Badger / TiKV client internals; the skiplist's internals (one abstract location per list); the Go memory model beyond happens-before; request mixes other than the listed ones; the retry loop and the election goroutine",
         assumptions=["the verdict is a happens-before computation on each explored schedule: the solver only decides which paths are feasible (weakest fit for the technique, see DESIGN.md C19)"],
     ),
+    "C12": dict(
+        harnesses=[
+            dict(run="pkg/zzc12.VerifC12Engines", quick=dict(requests=2), thorough=dict(requests=3), covers=["write-ok", "compaction", "done"]),
+        ],
+        bounds=dict(quick="the same sequence of 2 symbolic requests (create / update / delete / get / list with limit / compact+count; 2 prefix-related keys, symbolic values, expected and read revisions) on three nodes: contract store, real in-memory adapter, metrics wrapper around the in-memory adapter; pairwise identical answers",
+                    thorough="sequences of 3 requests"),
+        outside="the Badger and TiKV engines (no engine models were built; their adapters' known deviations are listed in DESIGN.md 'not covered'); watch events across engines; concurrent histories; time-based expiry (engines differ by design)",
+    ),
 }
